@@ -250,3 +250,32 @@ package labels
 //@   modifies *
 //@   invariant loop 2: !hasBackground ==> (forall j int :: 0 <= j && j <= rangeindex ==> has(lbls, pb.Labels[j]))
 //@   assert at "if inBlock {": !hasBackground ==> (forall j int :: 0 <= j && j < len(pb.Labels) ==> has(lbls, pb.Labels[j]))
+
+// ---- label index arithmetic under proofreading (C08) ----
+// svIn(idx, s): supervoxel s has a count in some block of the index.
+//@ spec func svIn(idx *Index, s uint64) bool = exists z uint64 :: has(idx.Blocks, z) && idx.Blocks[z] != nil && has(idx.Blocks[z].Counts, s)
+
+// GetSupervoxels returns only supervoxels that are in the index (soundness direction; completeness of
+// the set is not proved here).
+//@ func Index.GetSupervoxels
+//@   prop C08
+//@   safety_off
+//@   modifies nothing
+//@   invariant loop 1: lbls != nil && fresh(lbls) && (forall s uint64 :: has(lbls, s) ==> svIn(idx, s))
+//@   invariant loop 2: lbls != nil && fresh(lbls) && (forall s uint64 :: has(lbls, s) ==> svIn(idx, s))
+//@   ensures result != nil && fresh(result)
+//@   ensures forall s uint64 :: has(result, s) ==> idx != nil && svIn(idx, s)
+
+// ModifyBlocks applies voxel-count changes only to supervoxels that belong to this body: those already
+// in its index - or, when the index has no supervoxel at all (a new body), the body's own label. Counts
+// of any other supervoxel named in the changes (it belongs to another body, e.g. after a cleave) are left
+// alone.
+//@ func Index.ModifyBlocks
+//@   prop C08
+//@   safety_off
+//@   modifies *
+//@   ghost wasEmpty bool = false
+//@   ghostset at "labelSupervoxels[label] = struct{}{}": wasEmpty = true
+//@   assert at "labelSupervoxels[label] = struct{}{}": len(labelSupervoxels) == 0
+//@   invariant loop 1: forall s uint64 :: has(labelSupervoxels, s) ==> old(idx.Blocks != nil && svIn(idx, s)) || (wasEmpty && s == label)
+//@   assert at "for izyxStr, delta := range blockChanges {": old(idx.Blocks != nil && svIn(idx, supervoxel)) || (wasEmpty && supervoxel == label)
